@@ -184,7 +184,9 @@ def ob_onesided(h):
     # the plain two-sided simplification
     chord_mid = (ys[0] + ys[2]) / 2
     if m < 3:
-        h.check("dropped_point_within_epsilon", And(chord_mid - ys[1] <= eps, ys[1] - chord_mid <= eps))
+        cross = 20.0 * (ys[1] - ys[0]) - (ys[2] - ys[0]) * 10.0            # twice the triangle area: |cross| / chord length = distance to the chord
+        len2 = 400.0 + (ys[2] - ys[0]) * (ys[2] - ys[0])
+        h.check("dropped_point_within_epsilon_of_chord", cross * cross <= eps * eps * len2)
     h.exclude_known("KF-C17-one-sided-skipped", m < 3)
     if m < 3:
         if hot:
